@@ -130,6 +130,14 @@ CHECKS = {
             'overridden with every assignment over {TRUE, FALSE, 1, 0, blank} (<= 3 conditions) or all TRUE/FALSE assignments '
             'plus single deviations',
             'trusted: mc/ref/formula.py lazy evaluator', 'DESIGN.md section 2 C13'),
+    'C20': ('bounded-exhaustive differential enumeration: every common runtime helper on the complete product of per-parameter '
+            'alphabets, generated copy against importable copy; hand-written subclasses against generated classes',
+            'helper sets and signatures of the two copies; for each of the 57 common helpers the product of its per-parameter '
+            'alphabets (numbers, texts with wildcards / regex metacharacters, dates, blanks of the respective class, lists, tables, '
+            'criteria predicates, callables, flags), extended by a generic pool of all value kinds below a size cap; three '
+            'workbooks (function corpus, operators, criteria/lookups) evaluated cell by cell on a generated class and on a '
+            'hand-written subclass of the base carrying the same cell members, with and without overrides',
+            'trusted: nothing but equality of the two outcomes (neither copy is the oracle)', 'DESIGN.md section 2 C20'),
 }
 
 PENDING_REASON = 'check not built yet in this session; see DESIGN.md section 2 for the planned model-checking approach'
